@@ -6,6 +6,11 @@ HERE = os.path.dirname(os.path.dirname(os.path.abspath(__file__)))
 
 # id -> (level, technique, text, note, design_ref)
 CHECKS = {
+ "C01": ("model_checking",
+         "exhaustive orbit enumeration on a rational site grid for all 530 settings (exact integer group-action model) with every image replayed on Crystal.unit_cell_atoms/slab",
+         "All 530 settings x every site of the 1/24 grid (1/48 for the 230 first-listed settings in the thorough tier), i.e. every special position with such coordinates and general positions, both orbit representatives, 2 cells, 3 occupancies, 3 slab bounds: image set, parent index, generator operation, element/label, merged occupancy, [0,1) range and Cartesian consistency compared with an exact model for every image.",
+         "Sites are >= 1/48 apart (outside the 0.01 merge tolerance, as the property stipulates); float coordinates i/N; reference algebra in mc/ref/symm.py bound to the code by decoder/apply conformance on every tabulated operation.",
+         "2/C01"),
  "C02": ("model_checking",
          "explicit-state BFS of the Cayley graph of every tabulated setting (exact integer model) + conformance replay on SpaceGroup",
          "Finite domain enumerated completely: all 530 settings; closure/inverse/identity/uniqueness decided on an exact model bound to the code by decoding every operation both ways; construction, default choice, lookup from full list (3 orders) and LATT+SYMM round trip executed on the real classes for every setting.",
